@@ -278,6 +278,11 @@ class Ref:
         if len(m) > 1:
             if tagged in m:
                 return {tagged}
+            if not node.tag.startswith('tag:yaml.org,2002'):
+                # a tag that names none of the candidates (an incompatible
+                # or unknown class): this hierarchy offers nothing -- which
+                # matters inside a Union whose other member the tag names
+                return set()
             return m
         if not node.tag.startswith('tag:yaml.org,2002'):
             if tagged is None or tagged not in m:
